@@ -1,6 +1,6 @@
 (* drv_pb.ml — print-buffer domain.  Line: "<alloc_limit> op;op;..." with
    A<hex> memappend, N<hex>,<n> memappend with explicit size, S<off>,<c>,<len> memset,
-   F<hex> sprintbuf("%s"), R reset. *)
+   F<hex> sprintbuf("%s"), G<hex> sprintbuf("%s%c%s…") (at most three NUL bytes inside), R reset. *)
 open Model
 open Util
 
@@ -12,7 +12,7 @@ let parse_op s =
             | [h; n] -> OpAppendN (bytes_of_hex h, z_of_string n) | _ -> failwith "N")
   | 'S' -> (match String.split_on_char ',' body with
             | [o; c; l] -> OpMemset (z_of_string o, z_of_string c, z_of_string l) | _ -> failwith "S")
-  | 'F' -> OpSprintf (bytes_of_hex body)
+  | 'F' | 'G' -> OpSprintf (bytes_of_hex body)
   | 'R' -> OpReset
   | _ -> failwith "pb op"
 
